@@ -15,6 +15,7 @@ import (
 	"math/rand"
 	"os"
 	"path/filepath"
+	"runtime/debug"
 	"sort"
 	"strings"
 
@@ -608,7 +609,22 @@ func main() {
 			files = append(files, cur)
 		}
 		name := fmt.Sprintf("neg-%s-%s-%s-v%d", cf.name, cf.preset, schedName(cf.forks), cf.validators)
-		if err := run(rec, cf, name, rand.New(rand.NewSource(*seed*104729+int64(pos))), perBlock, bytesPer, editsPer, pos*7+int(*seed)); err != nil {
+		runIt := func() (err error) {
+			defer func() {
+				if p := recover(); p != nil {
+					stack := debug.Stack()
+					if _, _, zrnt := beaconrec.ClassifyStack(stack); zrnt && rec.Events > 0 {
+						fmt.Fprintf(os.Stderr, "note: %s: zrnt panicked outside a recorded call: %v\n", name, p)
+						err = rec.Crash(name, p, stack)
+						return
+					}
+					fmt.Fprintf(os.Stderr, "harness panic in %s: %v\n%s\n", name, p, stack)
+					os.Exit(2)
+				}
+			}()
+			return run(rec, cf, name, rand.New(rand.NewSource(*seed*104729+int64(pos))), perBlock, bytesPer, editsPer, pos*7+int(*seed))
+		}
+		if err := runIt(); err != nil {
 			fatal(fmt.Errorf("scenario %s: %w", name, err))
 		}
 		ran++
